@@ -63,6 +63,14 @@ def reader_sections(F, S):
 
 def check(F, run, tier):
     S = Summaries(F)
+    from ..rules_archive import verified_names_final
+    run.add(verified_names_final(F, S, F.fn(VOL + "::CreateArchive", nparams=2), VOL + "::CreateArchive"))
+    # refusals at the edge of an integer type's range are exact (neither the largest representable value is turned away nor
+    # the first unrepresentable one let through), wherever in the library they are made
+    from ..rules_stream import capacity_refusals_exact
+    _oc, _nc = capacity_refusals_exact(F, S, ["/src/"])
+    run.add(_oc)
+    run.floor("capacity-refusals", _nc, 33)
     run.declined = DECLINED
     run.explanation = (
         "Static analysis of the VOL writer against an independent description of the format, and of the reader's handling of "
